@@ -10,7 +10,11 @@ MAX_EVALS = 400
 def classify(div):
     if div is None:
         return None
-    return (div["kind"], (div.get("op") or {}).get("m") or (div.get("op") or {}).get("op") or div["kind"])
+    import re
+    base = (div["kind"], (div.get("op") or {}).get("m") or (div.get("op") or {}).get("op") or div["kind"])
+    if div.get("why"):
+        base = base + (re.sub(r"[0-9]+", "N", div["why"]),)
+    return base
 
 
 def _remove(ops, idxs):
